@@ -2,7 +2,10 @@ module zrverif
 
 go 1.13
 
-require github.com/youzan/ZanRedisDB v0.0.0
+require (
+	github.com/absolute8511/redcon v0.9.3
+	github.com/youzan/ZanRedisDB v0.0.0
+)
 
 replace github.com/youzan/ZanRedisDB => /repo
 
